@@ -47,8 +47,35 @@ if not jeq(J(b * 2), J(b + b)): return "times-2-vs-self-plus-self"
                    bounds="one symbolic record filled into the children before the collection is assembled; symbolic factor > 0")
 
 
+def numpy_factor(tree, timeout=40):
+    """the factor is a numpy scalar (np.float64 is a float): numpy.float64(f) * h must end in h.__rmul__ like f * h does
+    (an aggregator that looks array-like to numpy is broadcast over instead); concrete, real numpy, untraced"""
+    body = """
+import numpy as np
+k = sel(k, 0, 1, 2, 3, 4, 5)
+with NT():
+    f = [np.float64(2.0), np.float64(0.5), np.int64(3), np.float64(0.0), np.float64(-1.0), np.float64("nan")][k]
+    h = MK(); h._checkForCrossReferences()
+    for d in ((0.5, 0.25, "a", 1.0), (1.5, 0.75, "b", 2.5), (NAN, 1.0, "a", 0.0)): h.fill(d)
+    res = ""
+    try:
+        left = f * h; right = h * f; plain = h * float(f)
+        if type(left) is not type(h): res = "numpy-scalar-times-aggregator-is-not-an-aggregator:" + type(left).__name__
+        elif not jeq(left.toJson(), plain.toJson()): res = "numpy-scalar-on-the-left-scales-differently"
+        elif not jeq(right.toJson(), plain.toJson()): res = "numpy-scalar-on-the-right-scales-differently"
+        else:
+            left.fill((0.5, 0.25, "a", 1.0)); plain.fill((0.5, 0.25, "a", 1.0))
+            if not jeq(left.toJson(), plain.toJson()): res = "result-of-numpy-scaling-fills-differently"
+    except Exception as ex:
+        res = "numpy-scalar-factor-raises:" + type(ex).__name__
+if res: return res
+"""
+    return Harness(f"C08/numpy-factor/{tree.name}", [("k", "int")], "0 <= k <= 5", body, timeout=timeout, setup=_setup(tree), tree=tree.expr,
+                   bounds="3 concrete fills; factor by selector over numpy.float64 2.0/0.5/0.0/-1.0/nan and numpy.int64 3, on the left and on the right")
+
+
 def harnesses(tier):
-    out = [assembled()]
+    out = [assembled()] + [numpy_factor(t) for t in cat.unit() + cat.extra_unit() + (cat.deep() if tier == "thorough" else [])]
     for t in cat.unit():
         if t.name in ("Bin", "SparselyBin", "CentrallyBin", "IrregularlyBin", "Categorize", "Stack", "Label", "Branch", "Fraction"):
             out.append(ieee_entries(t))
